@@ -220,4 +220,41 @@ theorem castle_monotone (p g : Pos) (ms : List Mv) (h : Playable p ms g) (bit : 
     rw [this]
     exact and_bit_mono _ _ _ _ hb
 
+theorem and_kill1 (x k1 k2 bit : UInt8) (h : k1 &&& bit = 0) : (x &&& k1 &&& k2) &&& bit = 0 := by
+  have : (x &&& k1 &&& k2) &&& bit = (k1 &&& bit) &&& (x &&& k2) := by
+    rw [UInt8.and_comm x k1, UInt8.and_assoc, UInt8.and_assoc, UInt8.and_assoc]
+    congr 1
+    rw [← UInt8.and_assoc, UInt8.and_comm]
+  rw [this, h, UInt8.zero_and]
+
+theorem and_kill2 (x k1 k2 bit : UInt8) (h : k2 &&& bit = 0) : (x &&& k1 &&& k2) &&& bit = 0 := by
+  rw [UInt8.and_assoc (x &&& k1), h, UInt8.and_zero]
+
+theorem fixupEP_castle (p : Pos) : (fixupEP p).castle = p.castle := by
+  unfold fixupEP
+  split
+  · rfl
+  · split <;> rfl
+
+/-- while a castling right survives to the end of a line, no move of the line starts from or ends on a square that
+    cancels it (the king's and the rook's home squares) -/
+theorem castle_squares_untouched (p g : Pos) (ms : List Mv) (h : Playable p ms g) (bit : UInt8) (s : Sq)
+    (hs : castleKeep s &&& bit = 0) (hg : g.castle &&& bit ≠ 0) : ∀ m ∈ ms, m.f ≠ s ∧ m.t ≠ s := by
+  induction h with
+  | nil p => intro m hm; cases hm
+  | cons p m ms q _ hrest ih =>
+    intro m' hm'
+    rcases List.mem_cons.1 hm' with rfl | hm'
+    · have hc : (fixupEP (apply p m')).castle = p.castle &&& castleKeep m'.f &&& castleKeep m'.t := by rw [fixupEP_castle]; rfl
+      constructor
+      · intro e
+        apply hg
+        apply castle_monotone _ _ _ hrest bit
+        rw [hc]; exact and_kill1 _ _ _ _ (by rw [e]; exact hs)
+      · intro e
+        apply hg
+        apply castle_monotone _ _ _ hrest bit
+        rw [hc]; exact and_kill2 _ _ _ _ (by rw [e]; exact hs)
+    · exact ih hg m' hm'
+
 end PG
